@@ -26,6 +26,7 @@
 //         <vla_size obj> (params <type> ...) (members <member> ...) <vla_len node or ~>)
 //   member: (<idx> <name or ~> <type> <align> <offset> <is_bitfield> <bit_offset> <bit_width>)
 //   node:   (<KIND> <type> <file_no> <line_no> <kind-specific fields>)   see dump_node()
+//   (unemitted <obj-id> ...)                      anonymous data of functions that are not emitted
 #ifdef CHIBICC_VERIF
 #include "chibicc.h"
 
@@ -455,6 +456,16 @@ void verif_dump_ast(Obj *prog, FILE *fp) {
     while (types.done < types.len)
       dump_type(types.order[types.done++]);
   }
+
+  // Data that emit_data() skips: anonymous objects of functions that are
+  // not emitted.
+  fprintf(out, "\n(unemitted");
+  for (int i = 0; i < objs.len; i++) {
+    Obj *var = objs.order[i];
+    if (var->owner && !var->owner->is_live)
+      fprintf(out, " %d", obj_id(var));
+  }
+  fprintf(out, ")");
 
   fprintf(out, "\n(end)\n");
 }
